@@ -29,6 +29,7 @@ RTOL_READOUT = 1e-12      # stored value vs BASIC read-out of the same simulatio
 RTOL_MIX = 1e-12          # *_MIX: linear combination of two stored numbers
 RTOL_INVENTORY = 1e-6     # USE reads the current content: coarse element inventory (fine conservation is C02)
 RTOL_EQUIV = 1e-12
+RTOL_RELATED = 1e-8       # re-synchronisation of sites tied to a reactant rewrites sums that had converged to the solver tolerance
 ATOL_EQUIV = 1e-24        # mol: less than one atom
 RTOL_DEF, ATOL_DEF = 1e-6, 1e-9   # SOLUTION definition vs the same definition in a fresh instance (iterative result)        # RUN_CELLS / one-simulation combination vs the spelled-out sequence
 
@@ -152,6 +153,15 @@ INITS = {
     "R23": [D(k, "A", "1") for k in S.KIND_NAMES if k != "mix"] + [D(k, "B", "2-3") for k in S.KIND_NAMES if k != "mix"]
            + [D("mix", "A", "1"), D("mix", "B", "2-3")],
 }
+# a surface whose sites are tied to a kinetic reactant, equilibrated, reacted once and saved (so that it carries sites in
+# proportion to the reactant's moles and a charge): the store then holds entries that the engine links behind the scenes
+INITS["KS"] = [D("solution", "A", "1"),
+               {"op": "text", "name": "inert kinetic reactant + surface tied to it", "keys": [["kinetics", 1], ["surface", 1]],
+                # the rate is zero: the reactant's moles stay exactly 1, so re-synchronising the sites with them changes no digit
+                "text": ("RATES\n Inert\n -start\n 10 SAVE 0\n -end\nKINETICS 1\n Inert\n -formula SiO2 1\n -m 1\n -steps 100\n"
+                         "SURFACE 1\n Hfo_w Inert kinetic_reactant 0.001 600\n -equilibrate 1\nEND\n")},
+               R(("solution", 1), [("surface", 1), ("kinetics", 1)], "1")]
+KS_LINKED = [("kinetics", 1), ("surface", 1)]       # changing the reactant legitimately rescales the surface: ops naming either are left out
 KIND_GROUPS = [["solution", "exchange", "surface"], ["equilibrium_phases", "gas_phase", "solid_solutions"],
                ["kinetics", "mix", "reaction"], ["reaction_temperature", "reaction_pressure", "solution"]]
 
@@ -437,6 +447,15 @@ def judge(op, before, meta_b, after, meta_a, comps, res, exp, problems, diags):
     # ---- untouched entries
     for k in sorted(exp["same"]):
         if k in after and after[k] != before[k]:
+            if k[0] == "surface" and ("-rate_name" in before[k] or "-phase_name" in before[k]):
+                # sites tied to a reactant: every simulation with a SURFACE / KINETICS / EQUILIBRIUM_PHASES keyword re-synchronises
+                # them with the reactant's moles, which rewrites the stored sums (species sums, converged to the solver
+                # tolerance) to the exact product; the content is the same when it agrees to RTOL_RELATED
+                d = S.numeric_diff(before[k], after[k], RTOL_RELATED, 1e-30)
+                if d is None:
+                    continue
+                P("untouched-entry-changed op=%s entry=%s tied-to-a-reactant" % (oc, k[0]), "entry %s (sites tied to a reactant) is not named by the operation but its content changed beyond %g relative: %s" % (k, RTOL_RELATED, d))
+                continue
             P("untouched-entry-changed op=%s entry=%s" % (oc, k[0]), "entry %s is not named by the operation but its content changed: %s" % (k, S.numeric_diff(before[k], after[k], 0)))
     # ---- copies
     for k, src in sorted(exp["equal_to"].items()):
@@ -887,7 +906,14 @@ def run_case(case):
             "script": live.d.script() if uniq and not case.get("expand") else ""}
 
 
+def _untouched_by(op, keys, watched):
+    e = S.model_apply({k: "" for k in keys}, op)
+    return e["keys"] is not None and not e["must_fail"] and all(k in e["same"] for k in watched)
+
+
 ALPHABETS = {"full": alphabet()}
+_ks_keys = [("solution", 1), ("kinetics", 1), ("surface", 1)]
+ALPHABETS["ks"] = [o for o in alphabet() if _untouched_by(o, _ks_keys, KS_LINKED)]
 for _i, _g in enumerate(KIND_GROUPS):
     ALPHABETS["g%d" % _i] = alphabet(_g)
 
@@ -992,6 +1018,8 @@ def run(tier):
              returned=sum(1 for r in res if r["key"].endswith(":returned")))
     st, ok = bfs(["E", "P12", "R23"], "full", 2, ev, findings, pool, dl, samples, "full alphabet")
     ev.extra["levels_full"] = st
+    st, ok = bfs(["KS"], "ks", 1 if tier == "quick" else 2, ev, findings, pool, dl, samples, "operations that name neither entry, from the state with a saved surface tied to a kinetic reactant")
+    ev.extra["levels_ks"] = st
     if tier == "thorough" and ok:
         for i, g in enumerate(KIND_GROUPS):
             st, ok = bfs(["E", "P12", "R23"], "g%d" % i, 3, ev, findings, pool, dl, samples, "kinds %s" % "+".join(g))
